@@ -49,6 +49,8 @@ def main(tier, replay_payload=None):
                      "(real methods in real threads); oracle = all sequential orders")
     run.replayer = replayer
     outs = conc.explore_scenarios(W_ARGS, sf, bound)
+    from engine import battery
+    battery.validate(run)
     fold(run, outs, "LIN:", bound)
     if tier == "thorough":
         outs3 = conc.explore_scenarios(W_ARGS, scenarios_for(tier, triples=True), 1)
